@@ -354,6 +354,9 @@ class S256Point(Point):
 
     def verify(self, z, sig):
         # remember sig.r and sig.s are the main things we're checking
+        # r and s must both be in [1, N-1]
+        if not (1 <= sig.r < N and 1 <= sig.s < N):
+            return False
         # remember 1/s = pow(s, N-2, N)
         s_inv = pow(sig.s, N - 2, N)
         # u = z / s
